@@ -88,3 +88,17 @@ Print Assumptions C16_source_print_parses_back.
 Example C16_source_print_example : GenText.gen_print_u32 (0 :: 42 :: 1073479681 :: nil)%N =
   (123 :: 32 :: 48 :: 85 :: 76 :: 44 :: 32 :: 52 :: 50 :: 85 :: 76 :: 44 :: 32 :: 49 :: 48 :: 55 :: 51 :: 52 :: 55 :: 57 :: 54 :: 56 :: 49 :: 85 :: 76 :: 32 :: 125 :: nil)%N.
 Proof. exact TextSrc.source_print_example. Qed.
+Print Assumptions C16_source_print_example.
+
+(* THE LAYOUT.  The storage of class poly is read from the source on every run (tools/cxxlayout2coq.py -> gen/GenLayout.v, three limb types): the
+   only data member is the aligned array `T _data[Degree * NbModuli]`; operator()(cm, i), const and non-const, is `_data[INDEX]` with INDEX
+   translated (unsigned 64-bit arithmetic); begin()/end() (all six) are std::begin/end(_data); the cereal hook archives `_data` alone.  The
+   index is cm * degree + i -- MODULUS-MAJOR -- and (cm, i) -> index is a bijection of [0, nmoduli) x [0, degree) onto [0, degree * nmoduli): the
+   raw form (the object representation of _data: C16_source_is_model) is exactly degree x moduli limbs, modulus by modulus. *)
+From NTT Require LayoutSpec.
+From NTT.gen Require GenLayout.
+Theorem C16_source_layout : LayoutSpec.modulus_major GenLayout.gen_index_u16 /\ LayoutSpec.modulus_major GenLayout.gen_index_u32 /\ LayoutSpec.modulus_major GenLayout.gen_index_u64.
+Proof. exact LayoutSpec.source_layout. Qed.
+Print Assumptions C16_source_layout.
+Example C16_source_layout_example : GenLayout.gen_index_u32 1024 2 5 = 2053 /\ GenLayout.gen_index_u16 8 0 7 = 7.
+Proof. exact LayoutSpec.source_layout_example. Qed.
